@@ -90,6 +90,13 @@ def cases(rng):
         k = int(rng.integers(1, 4))
         subl = [[int(v) for v in rng.choice(7, size=int(rng.integers(1, 4)), replace=False)] for _ in range(k)]
         add(f"{R}::merge_sublists", subl)
+    for _ in range(8):
+        k = int(rng.integers(0, 5))
+        subl = [[int(v) for v in rng.choice(7, size=int(rng.integers(1, 4)), replace=False)] for _ in range(k)]
+        add(f"{R}::find_el_within_nested_list", subl, int(rng.integers(0, 7)))
+    for _ in range(6):
+        n = int(rng.integers(1, 5))
+        add(f"{R}::sqra_normalize", np.round(rng.uniform(-2, 2, (n, n)), 2))
     # objects: construct, then read attributes / call methods (results listed in order)
     def obj(cls, ctor_args, ctor_kwargs, probes):
         out.append({"target": cls, "ctor": True, "args": [enc(a) for a in ctor_args], "kwargs": {k: enc(v) for k, v in ctor_kwargs.items()},
